@@ -118,7 +118,14 @@ impl ExponentialRandomBackoff {
         let delta = duration.as_secs_f64() * self.randomization_factor;
         let min = duration.as_secs_f64() - delta;
         let max = duration.as_secs_f64() + delta;
+        #[cfg(not(feature = "verif-hooks"))]
         let randomized = rng.random_range(min..=max);
+        #[cfg(feature = "verif-hooks")]
+        let randomized = match tower_resilience_core::verif::rng_u64() {
+            // seeded generator installed by a simulator: uniform in [min, max]
+            Some(bits) => min + (max - min) * ((bits >> 11) as f64 / (1u64 << 53) as f64),
+            None => rng.random_range(min..=max),
+        };
         Duration::from_secs_f64(randomized.max(0.0))
     }
 }
